@@ -16,7 +16,7 @@ func (db *redisDB) NewBatch() database.Batch {
 }
 
 func (b *batch) Put(key, value []byte) error {
-	return b.pipeline.Set(string(key), value, 0).Err()
+	return b.pipeline.Set(string(key), append([]byte(nil), value...), 0).Err()
 }
 
 func (b *batch) Delete(key []byte) error {
